@@ -127,6 +127,10 @@ Connected(g, r) == \A a \in 1..Len(r) :
                      /\ \A i \in 1..Len(r[a]) : HopEdge(g, r[a], i) # 0
                      /\ r[a][Len(r[a])].node = g.payee
 Enabled(g, r) == \A a \in 1..Len(r) : \A i \in 1..Len(r[a]) : g.edges[HopEdge(g, r[a], i)].en
+(* "excluded channels respect the request's limits": req.failed = PaymentParameters::
+   previously_failed_channels names channels by the scid the ROUTE would carry for them, whatever the
+   channel's kind -- an announced channel, a hop of a route hint, one of the payer's own (possibly
+   unannounced) first-hop channels.  Stated on the hop's scid only, not on the edge's kind.       *)
 NotExcluded(req, r) == \A a \in 1..Len(r) : \A i \in 1..Len(r[a]) : ~InSeq(r[a][i].scid, req.failed)
 HtlcMin(g, r) == \A a \in 1..Len(r) : \A i \in 1..Len(r[a]) :
                    Carried(r[a], i) >= g.edges[HopEdge(g, r[a], i)].min
@@ -134,6 +138,9 @@ HtlcMin(g, r) == \A a \in 1..Len(r) : \A i \in 1..Len(r[a]) :
 HtlcMaxAndCapacity(g, req, r) ==
   \A k \in DOMAIN g.edges :
      LET U == Uses(g, r, k) IN U # {} => SumUses(g, req, r, U) <= Limit(g.edges[k])
+(* every forwarder's fee is judged on the amount that hop ACTUALLY forwards (Carried includes every
+   raise made at a later hop, in the middle of the path or at its end: a raise travels over all earlier
+   hops and their proportional fees are due on it)                                               *)
 FeesPaid(g, r) == \A a \in 1..Len(r) : \A i \in 1..(Len(r[a]) - 1) :
                     r[a][i].fee >= RequiredFee(g, r[a], i)
 (* Another weaker form, again only to NAME a class of failure (still a violation): the limits
